@@ -291,14 +291,20 @@ class Strict(HasTraits):
     cs = tt.CSet(Int)
     ln = List(List(tt.Instance("Node")), maxlen=3)
     sn = List(Set(tt.Instance("Node")), maxlen=3)
+    # the legacy spelling Trait(<default>, <container trait>), and inner traits given as (falsy) constants
+    tl = __import__("traits.api", fromlist=["Trait"]).Trait([1, 2], List(Int, maxlen=4))
+    td = __import__("traits.api", fromlist=["Trait"]).Trait({"a": 1}, Dict(Str, Int))
+    l0 = List(0)
+    d0 = Dict("", 0.0)
 
 
 _N = [Node(), Node(), Node()]
 INITIAL = {"l": lambda: [1, 2], "d": lambda: {"a": 1}, "s": lambda: {1, 2}, "ll": lambda: [[1], [2, 3]],
            "dl": lambda: {"a": [1], "b": [2, 3]},
            "ul": lambda: [1, 2], "el": lambda: [1, 2], "ud": lambda: {"a": 1}, "cl": lambda: [1, 2], "cs": lambda: {1, 2},
-           "ln": lambda: [[_N[0]], [_N[1], None]], "sn": lambda: [{_N[0]}, {_N[1], _N[2]}]}
-LIKE = {"ul": "l", "el": "l", "cl": "l", "ud": "d", "cs": "s"}
+           "ln": lambda: [[_N[0]], [_N[1], None]], "sn": lambda: [{_N[0]}, {_N[1], _N[2]}],
+           "tl": lambda: [1, 2], "td": lambda: {"a": 1}, "l0": lambda: [1, 2], "d0": lambda: {"a": 1.5}}
+LIKE = {"ul": "l", "el": "l", "cl": "l", "ud": "d", "cs": "s", "tl": "l", "td": "d", "l0": "l"}
 SOURCES = ["self", "copy", "deepcopy", "pickle", "other-owner", "lax-owner", "inner", "plain"]
 
 
@@ -309,6 +315,8 @@ def _valid_value(name, v):
         icls = tlo.TraitListObject if name == "ln" else tso_.TraitSetObject
         return isinstance(v, tlo.TraitListObject) and len(v) <= 3 and all(
             isinstance(i, icls) and all(x is None or isinstance(x, Node) for x in i) for i in v)
+    if name == "d0":
+        return isinstance(v, tdo_.TraitDictObject) and all(type(k) is str and type(x) is float for k, x in v.items())
     name = LIKE.get(name, name)
     if name == "l":
         return isinstance(v, tlo.TraitListObject) and len(v) <= 4 and all(type(x) is int for x in v)
@@ -328,6 +336,9 @@ def _add_invalid(name, c, via_base):
     if name in ("ln", "sn"):
         # a Node where a row (a list / set of Nodes) belongs
         (list.append if via_base else type(c).append)(c, Node())
+        return
+    if name == "d0":
+        (dict.__setitem__ if via_base else type(c).__setitem__)(c, "k", "bad")
         return
     name = LIKE.get(name, name)
     if name in ("l",):
@@ -450,6 +461,36 @@ def assign_harness(name):
     return harness
 
 
+def defaults_harness(name):
+    """the DEFAULT of a container trait, never assigned: the value a first read hands out is a validating container like any
+    assigned one (elements, inner containers, length bounds), on the object that reads it and on the next one"""
+    def harness(ex):
+        o = Strict()
+        if ex.flag("another_object_read_its_default_first"):
+            getattr(Strict(), name)
+        v = getattr(o, name)
+        if not isinstance(v, (list, dict, set)):
+            return {"default": "not a container"}       # (Union / Either whose first alternative supplies the default)
+        ex.check(_valid_value(name, v), "the default handed out by a first read is a valid, validating container")
+        exc = None
+        try:
+            _add_invalid(name, v, False)
+        except TraitError:
+            exc = "TraitError"
+        except AttributeError:
+            exc = "AttributeError"
+        ex.check(exc == "TraitError" and _valid_value(name, getattr(o, name)), "the default value rejects an invalid item")
+        if name in ("l", "cl", "tl", "l0", "ul", "el") and isinstance(v, list):
+            exc2 = None
+            try:
+                v.extend([1, 2, 3, 4, 5])
+            except TraitError:
+                exc2 = "TraitError"
+            ex.check(exc2 == "TraitError" or name == "l0", "... and keeps the length bound")
+        return {"name": name}
+    return harness
+
+
 def obligations(tier, build):
     obs = []
     for name in INITIAL:
@@ -457,6 +498,15 @@ def obligations(tier, build):
                               bounds={"trait": name, "sources": SOURCES, "items": "concrete",
                                       "smuggled invalid item": "into detached copies only, through the built-in base class"},
                               leverage="choice feasibility only (copy/pickle and the compiled Int validator are C boundaries)"))
+    for name in INITIAL:
+        obs.append(Obligation("default-of/%s" % name, defaults_harness(name), bounds={"trait": name, "items": "concrete"},
+                              leverage="choice feasibility only"))
+    falsy_dict = owners.dict_factory(falsy=True)
+    for op in ("setitem", "update_pairs", "setdefault", "ior_map"):
+        for kvn, vvn in (("reject", "reject"), ("ident", "reject")):
+            obs.append(Obligation("dict-falsy-owner/%s/%s-%s" % (op, kvn, vvn), c06.make_harness(op, 1, 1, kvn, vvn, factory=falsy_dict),
+                                  env=c06.sym_env, stubs=STUBS, bounds={"owner": "falsy (defines __bool__ / __len__)", "stored entries": 1},
+                                  leverage="aliasing and validity of symbolic keys/values", max_paths=50000))
     N = 3 if tier == "quick" else 5
     M = 2 if tier == "quick" else 3
     for n in range(N + 1):
